@@ -248,7 +248,7 @@ func (m *fStompSubscriberTransport) Subscribe(topic string, callback FAsyncCallb
 	m.isSubscribed = true
 	m.callback = callback
 	m.topic = destination
-	go m.processMessages()
+	go m.processMessages(sub, m.stopC, callback)
 	return nil
 }
 
@@ -281,16 +281,18 @@ func (m *fStompSubscriberTransport) Unsubscribe() error {
 
 // processMessages call the given FAsyncCallback with messages from the
 // subscription channel.
-func (m *fStompSubscriberTransport) processMessages() {
-	stopC := m.stopC
-	// Unsubscribe clears m.callback while a message may still be in flight here.
-	callback := m.callback
+//
+// The subscription, the stop channel and the callback are handed over by
+// Subscribe: Unsubscribe clears m.callback (and a later Subscribe replaces
+// m.sub and m.stopC), possibly before this goroutine has run at all or while
+// a message is still in flight here.
+func (m *fStompSubscriberTransport) processMessages(sub *stomp.Subscription, stopC chan bool, callback FAsyncCallback) {
 	for {
 		select {
 		case <-stopC:
 			logger().Errorf("frugal: error processing stomp subscription messages, message received on stop channel")
 			return
-		case message, ok := <-m.sub.C:
+		case message, ok := <-sub.C:
 			logger().Debugf("frugal: received stomp message on topic '%s'", m.topic)
 			if !ok {
 				logger().Errorf("frugal: error processing subscription messages, message channel closed")
